@@ -27,6 +27,8 @@ def cases(tier, seed):
         nZ = rng.choice([5, 12, 33])
         src = conv.src_desc(rng, '3d', (nI, nX, nZ), hdr={'seed': rng.randrange(1 << 20), 'nfields': rng.randint(1, 4), 'inside': True},
                             valkind='smooth', il=[rng.choice([1, 10, -20]), rng.choice([1, 2, -1])], xl=[rng.choice([1, 100]), rng.choice([1, 3, -2])])
+        if i % 6 == 5:
+            src['sorting'] = 1           # crossline-sorted source file
         wins = []
         for a0 in (True, False):
             for c0 in (True, False):
@@ -49,6 +51,7 @@ def run_case(case, ctx):
     nI, nX, nZ = D.shape
     il, xl = src['ilines'], src['xlines']
     H = src['headers']
+    Hg = conv.grid_fields(src)          # header values on the inline-major grid whatever the trace sorting of the source file
     rate, bs = case['rate'], tuple(case['bs'])
     det = case['detection'] if case['route'] == 'api' else 'heuristic'
     bad, strata = [], set()
@@ -60,7 +63,7 @@ def run_case(case, ctx):
         sname = sc.file('s.sgz')
         sub = sc.file('sub.sgy')
         # the sub-cube alone, written by the harness with the windowed traces' own headers
-        hsub = {k: H[k].reshape(nI, nX)[a:b, c:d].reshape(-1) for k in KEYS if k not in gen.RESERVED and H[k].any()}
+        hsub = {k: Hg[k].reshape(nI, nX)[a:b, c:d].reshape(-1) for k in KEYS if k not in gen.RESERVED and H[k].any()}
         gen.make_segy(sub, D[a:b, c:d], il[a:b], xl[c:d], dt_us=case['src']['dt'], t0=case['src']['t0'], fmt=src['fmt'], headers=hsub)
         try:
             if case['route'] == 'api':
@@ -73,7 +76,7 @@ def run_case(case, ctx):
             continue
         conv.convert_segy(sub, sname, rate, bs, reduce_iops=False, detection=det)
         npairs += 1
-        strata.update(['win:' + wcls, 'reader:' + ('iops' if case['reduce_iops'] else 'segyio'), 'mode:' + det, 'route:' + case['route'],
+        strata.update(['sorting:%d' % case['src'].get('sorting', 2), 'win:' + wcls, 'reader:' + ('iops' if case['reduce_iops'] else 'segyio'), 'mode:' + det, 'route:' + case['route'],
                        'upper:%s' % ('full' if (b, d) == (nI, nX) else 'inner'),
                        'stride:%s' % ('same' if oracles.pad(4 * nI * nX, 512) == oracles.pad(4 * (b - a) * (d - c), 512) else 'different')])
         where = 'window %s of %s [%s], reduce_iops=%s mode=%s route=%s' % ((a, b, c, d), (nI, nX), wcls, case['reduce_iops'], det, case['route'])
@@ -85,7 +88,7 @@ def run_case(case, ctx):
         if det == 'strip':
             t['fields'] = {k: np.zeros((b - a) * (d - c), dtype=np.int64) for k in KEYS}
         elif req:
-            t['fields'] = {k: H[k].reshape(nI, nX)[a:b, c:d].reshape(-1) for k in KEYS}
+            t['fields'] = {k: Hg[k].reshape(nI, nX)[a:b, c:d].reshape(-1) for k in KEYS}
         bw, spw = conform.check(wname, t, tag='window:')
         for x in bw:
             x['detail'] += ' [%s]' % where
@@ -120,7 +123,7 @@ def run_case(case, ctx):
 def finalize(tier, cases, results, counters, strata):
     reasons = []
     need = ['win:il0:zero,xl0:zero', 'win:il0:zero,xl0:pos', 'win:il0:pos,xl0:zero', 'win:il0:pos,xl0:pos', 'reader:iops', 'reader:segyio',
-            'mode:thorough', 'mode:heuristic', 'mode:exhaustive', 'route:api', 'route:cli', 'upper:full', 'upper:inner']
+            'mode:thorough', 'mode:heuristic', 'mode:exhaustive', 'route:api', 'route:cli', 'upper:full', 'upper:inner', 'sorting:1', 'sorting:2']
     for s in need:
         if s not in strata:
             reasons.append('required stratum not hit: ' + s)
